@@ -97,7 +97,7 @@ def oracle(ctx, seeds, scale):
         for nm in ('x', 'yy', 'foo', 'emph', 'ref'):
             d = d.replace('\\' + nm + '{', '\\' + nm + rg.choice(seps) + '{').replace('\\' + nm + '[', '\\' + nm + rg.choice(seps) + '[')
         strs.append(d)
-    strs += gen.padded_env_docs()
+    strs += gen.padded_env_docs() + gen.env_body_start_docs()
     strs += gen.definition_docs() + gen.signature_probe_docs() + gen.escape_docs() + gen.codepoint_docs(rg, False, 500) + [d for d, _ in gen.name_neighbour_docs()]
     docs = gen.corpus()
     strs += docs
